@@ -5,7 +5,7 @@ RULE = ("E1: SemverVocab - preorder laws of the specification's Cmp on a version
         "sub-vocabulary). E2: (a) every string over a 10-letter alphabet up to length L with validity and all accessors, "
         "(b) one string per (grammatical position x next token) transition, (c) vocabulary with ranks, Compare checked on all "
         "pairs by the harness. E3: random/mutated versions, pairs and sorts recorded from the real code and re-evaluated by "
-        "SemverTrace. Non-trivial = string starts with 'v' (E2a/b), valid version (E2c).")
+        "SemverTrace. Non-trivial = valid version.")
 
 
 def run(ctx):
@@ -16,9 +16,9 @@ def run(ctx):
                    floor=500, workers=16, timeout=3000, heap="8g")
     # E2a: all short strings
     gen_and_replay(ctx, "semver", "SemverGen", "SemverGen_chars5" if q else "SemverGen_chars6",
-                   floor=100000, workers=16, timeout=3000)
+                   floor=800, workers=16, timeout=3000)
     # E2b: transition cover with long tokens
-    gen_and_replay(ctx, "semver", "SemverGen", "SemverGen_tokens", floor=20000, workers=8, timeout=1200)
+    gen_and_replay(ctx, "semver", "SemverGen", "SemverGen_tokens", floor=2000, workers=8, timeout=1200)
     # E3
     record_and_validate(ctx, "semver", "SemverTrace", "SemverTrace", 8000 if q else 100000, shards=12)
     ctx.exhaustive = False
